@@ -11,5 +11,5 @@ CONSTANTS
   Variant_LruNoReindex = FALSE
 INVARIANTS TypeOK VictimMember VictimSomeWhenNonEmpty VictimForOwnCache VictimsAgree LruNamesLeastRecent FifoNamesOldest LfuNamesMinCount CountsMatch
            TouchMakesNewest FreshInsertIsNewest InsertRestartsCount RemovedIsForgotten NoLeak PosConsistent CacheKnown
-PROPERTIES FifoIgnoresAccess AccessCounts OthersUndisturbed
+PROPERTIES FifoIgnoresAccess AccessCounts
 CHECK_DEADLOCK FALSE
